@@ -18,7 +18,7 @@ type Timing struct {
 }
 
 // Step is the scripted outcome of one attempt that reaches a live upstream.
-// Kind: reply | reply5xx | stall | partial-stall | reset | partial-reset | fin
+// Kind: reply | reply5xx | stall | partial-stall | reset | partial-reset | fin | garbage (bytes the response decoder fails on)
 type Step struct {
 	Kind   string `json:"kind"`
 	Status int    `json:"status,omitempty"` // reply5xx: HTTP status / bolt response status
@@ -191,8 +191,8 @@ func genScenario(rt *rapid.T, i int) *Scenario {
 	if pct(rt, l("filter_delay"), 25) {
 		sc.FilterDelayUs = uni(rt, l("filter_delay_us"), 300, 4000)
 	}
-	kinds := []string{"reply", "reply5xx", "stall", "partial-stall", "reset", "partial-reset", "fin"}
-	kw := []int{30, 16, 16, 7, 13, 8, 10}
+	kinds := []string{"reply", "reply5xx", "stall", "partial-stall", "reset", "partial-reset", "fin", "garbage"}
+	kw := []int{30, 16, 16, 7, 13, 8, 10, 6}
 	for k := 0; k < maxSteps; k++ {
 		st := Step{Kind: weighted(rt, l(fmt.Sprintf("step%d.kind", k)), kinds, kw)}
 		if st.Kind == "reply5xx" {
